@@ -1,2 +1,86 @@
-//! placeholder, filled in for C16
-pub fn exec_bls(_o: &str, _args: &[&str]) -> String { "unsupported".into() }
+//! C16: the crate's BLS12-377 engine (over its own Fp / Fq) against the reference `ark_bls12_377` engine.
+use super::*;
+use ark_ec::pairing::Pairing;
+use ark_ec::{AffineRepr, CurveGroup, Group};
+use ark_ff::{Field, One, PrimeField};
+use ark_serialize::{CanonicalDeserialize, CanonicalSerialize};
+
+type Ours = decaf377::Bls12_377;
+type Ref = ark_bls12_377::Bls12_377;
+
+fn ser<T: CanonicalSerialize>(t: &T, compressed: bool) -> String {
+    let mut v = Vec::new();
+    if compressed { t.serialize_compressed(&mut v).unwrap(); } else { t.serialize_uncompressed(&mut v).unwrap(); }
+    tohex(&v)
+}
+
+fn scalars(args: &[&str]) -> Option<(decaf377::Fq, ark_bls12_377::Fr, decaf377::Fq, ark_bls12_377::Fr)> {
+    let a = unhex(args.get(0)?)?;
+    let b = unhex(args.get(1)?)?;
+    Some((decaf377::Fq::from_le_bytes_mod_order(&a), ark_bls12_377::Fr::from_le_bytes_mod_order(&a),
+          decaf377::Fq::from_le_bytes_mod_order(&b), ark_bls12_377::Fr::from_le_bytes_mod_order(&b)))
+}
+
+pub fn exec_bls(o: &str, args: &[&str]) -> String {
+    match o {
+        // generators, both serialisation modes; output pairs ours/ref
+        "gen" => {
+            let g1 = <Ours as Pairing>::G1Affine::generator();
+            let g2 = <Ours as Pairing>::G2Affine::generator();
+            let r1 = <Ref as Pairing>::G1Affine::generator();
+            let r2 = <Ref as Pairing>::G2Affine::generator();
+            format!("{} {} {} {} {} {} {} {}", ser(&g1, true), ser(&r1, true), ser(&g2, true), ser(&r2, true),
+                    ser(&g1, false), ser(&r1, false), ser(&g2, false), ser(&r2, false))
+        }
+        // a*G1, b*G2, e(aG1,bG2): serialised bytes of both engines, then bilinearity and non-degeneracy
+        "mul" => match scalars(args) {
+            Some((a, ra, b, rb)) => {
+                let p = (<Ours as Pairing>::G1::generator() * a).into_affine();
+                let q = (<Ours as Pairing>::G2::generator() * b).into_affine();
+                let rp = (<Ref as Pairing>::G1::generator() * ra).into_affine();
+                let rq = (<Ref as Pairing>::G2::generator() * rb).into_affine();
+                let e = Ours::pairing(p, q);
+                let re = Ref::pairing(rp, rq);
+                let base = Ours::pairing(<Ours as Pairing>::G1Affine::generator(), <Ours as Pairing>::G2Affine::generator());
+                let bil = e.0 == base.0.pow((a * b).into_bigint());
+                let nondeg = !base.0.is_one();
+                // bilinearity in each argument separately: e(aP, Q) = e(P, aQ)
+                let e2 = Ours::pairing((<Ours as Pairing>::G1::generator() * b).into_affine(), (<Ours as Pairing>::G2::generator() * a).into_affine());
+                format!("{} {} {} {} {} {} bil={} sym={} nondeg={}", ser(&p, true), ser(&rp, true), ser(&q, true), ser(&rq, true), ser(&e, true), ser(&re, true),
+                        bil as u8, (e2.0 == e.0) as u8, nondeg as u8)
+            }
+            None => "bad-op".into(),
+        },
+        // serialised points exchanged between the two engines, both directions, both modes
+        "xchg" => match scalars(args) {
+            Some((a, ra, b, rb)) => {
+                let p = (<Ours as Pairing>::G1::generator() * a).into_affine();
+                let q = (<Ours as Pairing>::G2::generator() * b).into_affine();
+                let rp = (<Ref as Pairing>::G1::generator() * ra).into_affine();
+                let rq = (<Ref as Pairing>::G2::generator() * rb).into_affine();
+                let mut ok = true;
+                for compressed in [true, false] {
+                    let mut v = Vec::new();
+                    if compressed { p.serialize_compressed(&mut v).unwrap() } else { p.serialize_uncompressed(&mut v).unwrap() };
+                    let back = if compressed { <Ref as Pairing>::G1Affine::deserialize_compressed(&v[..]) } else { <Ref as Pairing>::G1Affine::deserialize_uncompressed(&v[..]) };
+                    ok &= back.map(|x| x == rp).unwrap_or(false);
+                    let mut v = Vec::new();
+                    if compressed { rq.serialize_compressed(&mut v).unwrap() } else { rq.serialize_uncompressed(&mut v).unwrap() };
+                    let back = if compressed { <Ours as Pairing>::G2Affine::deserialize_compressed(&v[..]) } else { <Ours as Pairing>::G2Affine::deserialize_uncompressed(&v[..]) };
+                    ok &= back.map(|x| x == q).unwrap_or(false);
+                    let mut v = Vec::new();
+                    if compressed { rp.serialize_compressed(&mut v).unwrap() } else { rp.serialize_uncompressed(&mut v).unwrap() };
+                    let back = if compressed { <Ours as Pairing>::G1Affine::deserialize_compressed(&v[..]) } else { <Ours as Pairing>::G1Affine::deserialize_uncompressed(&v[..]) };
+                    ok &= back.map(|x| x == p).unwrap_or(false);
+                    let mut v = Vec::new();
+                    if compressed { q.serialize_compressed(&mut v).unwrap() } else { q.serialize_uncompressed(&mut v).unwrap() };
+                    let back = if compressed { <Ref as Pairing>::G2Affine::deserialize_compressed(&v[..]) } else { <Ref as Pairing>::G2Affine::deserialize_uncompressed(&v[..]) };
+                    ok &= back.map(|x| x == rq).unwrap_or(false);
+                }
+                format!("xchg={}", ok as u8)
+            }
+            None => "bad-op".into(),
+        },
+        _ => "unsupported".into(),
+    }
+}
